@@ -123,6 +123,7 @@ def run(ctx, rep):
                          why="id = %s" % tm.show(tm.getf(recd, "EProd", "id"), 3))
         vals = tm.getf(recd, "EProd", "values")
         check_values(rep, key, vals, idv, carrier, srcname, where)
+        check_id_source(rep, key, it, idv, vals, carrier, where)
         # appended only on top of the declared data (nothing removed)
         base = e.a[0]
         based = base is data0 or any(x is data0 for x in tm.subterms(base))
@@ -258,3 +259,65 @@ def check_values(rep, key, vals, idv, carrier, srcname, where):
 def has_positive_part(t):
     return (t.op == "collect" and t.a[0].op == "map" and t.a[0].a[0].op == "iter"
             and t.a[0].a[0].a[0].op == "vop" and t.a[0].a[0].a[0].a[0] == "sub")
+
+
+def check_id_source(rep, key, it, idv, vals, carrier, where):
+    """The systems visited: each id once (a set of the ids of the carrier's components), and a system is
+    skipped only when it has no use of the carrier or nothing is left uncovered (annual sum of the
+    very vector that would be added is zero)."""
+    src = it.a[0]
+    conds = []
+    while src.op == "filter":
+        conds.append(src.a[1])
+        src = src.a[0]
+    base = src.a[0] if src.op == "iter" else src
+    if base.op == "collect_set":
+        rep.discharged(key + "/ids", "each system id of the carrier is visited once (set of ids)")
+    else:
+        rep.violated(key + "/ids", "each system is completed exactly once", construct=where,
+                     why="the ids iterated are not a set: %s" % tm.show(base, 3)[:160])
+    bad = []
+    n_ok = 0
+
+    def classify(x):
+        if x.op == "is_empty":
+            return "E"
+        if x.op == "eq":
+            a, b = x.a
+            other = b if a is tm.ZERO else (a if b is tm.ZERO else None)
+            if other is not None and other.op == "sum" and other.a[0].op == "iter" and other.a[0].a[0] is vals:
+                return "Z"
+        return None
+
+    def ev(x, env):
+        if x is tm.TRUE:
+            return True
+        if x is tm.FALSE:
+            return False
+        if x.op == "not":
+            return not ev(x.a[0], env)
+        if x.op == "and":
+            return all(ev(y, env) for y in x.a)
+        if x.op == "or":
+            return any(ev(y, env) for y in x.a)
+        k = classify(x)
+        if k is None:
+            bad.append(x)
+            return True
+        return env[k]
+
+    full = tm.and_(*[tm.apply_lam(l, [idv]) for l in conds]) if conds else tm.TRUE
+    for E in (False, True):
+        for Z in (False, True):
+            got = ev(full, {"E": E, "Z": Z})
+            want = (not E) and (not Z)
+            if got == want:
+                n_ok += 1
+            elif not bad:
+                bad.append(full)
+    n_ok = 2 if (n_ok == 4 and not bad) else 0
+    if not bad and n_ok >= 2:
+        rep.discharged(key + "/skip", "a system is skipped only without use of the carrier or when nothing is left uncovered")
+    else:
+        rep.violated(key + "/skip", "every system with uncovered use at some step gets its completion", construct=where,
+                     why="systems are also skipped when %s" % "; ".join(tm.show(b, 4)[:160] for b in bad[:2]))
